@@ -7,7 +7,7 @@ ASSUMPTIONS = ['each shared access between two synchronisation calls is atomic (
 
 
 def main(tier, seed, replay=None):
-    ck, ok = CC.run_property("C10", tier, seed, replay, ['produce', 'produce', 'produce_raise', 'consume'], lambda s: s.startswith(('callback-items-differ', 'callback-endmarker', 'receive-after-setcallback')), None, ASSUMPTIONS, extra=EXTRA)
+    ck, ok = CC.run_property("C10", tier, seed, replay, ['produce', 'produce', 'produce_raise', 'consume'], lambda s: s.startswith(('callback-items-differ', 'callback-endmarker', 'receive-after-setcallback', 'endmarker-never-delivered')), None, ASSUMPTIONS, extra=EXTRA)
     try:
         from props import chan_model
 
